@@ -37,6 +37,9 @@ func SimSeed(x uint64) {
 // SimGoID returns the current goroutine's id.
 func SimGoID() uint64 { return getg().goid }
 
+// SimParentGoID returns the id of the goroutine that started the current one.
+func SimParentGoID() uint64 { return getg().parentGoid }
+
 func simrandn(n uint32) uint32 {
 	x := simState
 	if x == 0 {
